@@ -180,6 +180,37 @@ func checkC01(c *Ctx) {
 		c.tableConstInt(p, "C01.table", t.pkg, "KeySeedSize", 64)
 		c.tableConstInt(p, "C01.table", t.pkg, "EncapsulationSeedSize", 32)
 	}
+	// RFC 9180 DHKEM: the ephemeral ikm has Nsk bytes: the advertised encapsulation seed size is the private
+	// key size (they differ from the hash size for P-521: 66 vs 64)
+	for _, kt := range []string{"shortKEM", "xKEM"} {
+		pk := p.Func("hpke", kt, "PrivateKeySize")
+		es := p.Func("hpke", kt, "EncapsulationSeedSize")
+		what := "(hpke." + kt + ").EncapsulationSeedSize returns what PrivateKeySize returns"
+		if pk == nil || es == nil {
+			c.undecided("C01.table", what, "anchor does not resolve", "")
+			continue
+		}
+		ret := func(f *ssa.Function) string {
+			var ds []string
+			for _, b := range f.Blocks {
+				if r, ok := b.Instrs[len(b.Instrs)-1].(*ssa.Return); ok && len(r.Results) == 1 {
+					ds = append(ds, descVal(r.Results[0]))
+				}
+			}
+			sort.Strings(ds)
+			return strings.Join(ds, "|")
+		}
+		if a, b := ret(pk), ret(es); a != b || a == "" {
+			c.bad("C01.table", what, fmt.Sprintf("EncapsulationSeedSize returns %s, PrivateKeySize returns %s", b, a), p.fnPos(es))
+		} else {
+			c.ok("C01.table", what, "both return "+a, p.fnPos(es))
+		}
+	}
+	// no bit of a received share or ciphertext is cleared before it is bound into the secret (the masked bits
+	// of X25519 are exempt from the DH only, not from the hash)
+	c.maskRule(p, "C01.bind", "no bit of the received ciphertext is cleared before it is hashed into the X-Wing secret", p.Func("kem/xwing", "PrivateKey", "DecapsulateTo"))
+	c.maskRule(p, "C01.bind", "no bit of the received share is cleared by the TLS-hybrid X25519/X448 KEM", p.Func("kem/hybrid", "xScheme", "Decapsulate"))
+	c.maskRule(p, "C01.bind", "no bit of an HPKE X25519/X448 public key is cleared when it is parsed", p.Func("hpke", "xKEM", "UnmarshalBinaryPublicKey"))
 	for n, v := range map[string]int64{"PublicKeySize": 1216, "PrivateKeySize": 32, "CiphertextSize": 1120, "SharedKeySize": 32, "SeedSize": 32, "EncapsulationSeedSize": 64} {
 		c.tableConstInt(p, "C01.table", xw, n, v)
 	}
